@@ -188,7 +188,7 @@ TRANSLATED = {
     'C15': ['isLocalRedirectTarget', 'buildFullURL', 'determineScheme', 'determineHost'],
     'C18': ['splitIntoChunks'],
     'C19': ['VerifyToken', 'performPreVerificationChecks'],
-    'C20': ['discoverProviderMetadata'],
+    'C20': ['discoverProviderMetadata', 'MetadataCache.GetMetadata', 'MetadataCache.isCacheValid', 'MetadataCache.Cleanup'],
 }
 for _k, _fs in TRANSLATED.items():
     PROPS[_k]['explanation'] += '; translated from the source on every run (tools/go2lean) and proved equal to the model: ' + ', '.join(_fs)
